@@ -458,11 +458,13 @@ PROPS['C14'] = {
             '__getnewargs__, names the object\'s oid, class and database; a new object gets an oid of this connection, '
             'becomes its object and is queued for storing; an object of another connection is accepted only through the '
             'multi-database (cross references allowed, database registered under its name, the connection this one hands '
-            'out for it, not being created there). BOUNDED only - the first '
+            'out for it, not being created there); and for persistent weak references: the oid of the TARGET is named, a new '
+            'target gets an oid, becomes this connection\'s object and IS queued for storing, the database name is written '
+            'exactly when the target lives elsewhere. BOUNDED only - the first '
             'sentence of the property (graph round trip through zodbpickle, ObjectWriter.persistent_id, ObjectReader '
             'loaders, broken classes): random graphs through the real code.',
-    'note': 'Everything inside zodbpickle and persistent (C code) is outside; A-NOLOAD, A-CLASS assumed. The weak-reference '
-            'branch of persistent_id, non-persistent values, serialize() and the loaders other than the weak-reference one '
+    'note': 'Everything inside zodbpickle and persistent (C code) is outside; A-NOLOAD, A-CLASS assumed. '
+            'Non-persistent values in persistent_id, serialize() and the loaders other than the weak-reference one '
             'are NOT under contract (reflection over arbitrary objects) - bounded stand-in only.',
     'design_ref': 'DESIGN.md section 5 C14',
 }
